@@ -232,6 +232,8 @@ def check_C03(tier):
         enc_gen_replay(rep, "pool%d" % k, sorted(set(alpha)), "default", 4, quick=quick,
                        own=("C03", "C02", "C14", "C04", "C05", "C06", "C10"))
     enc_narrow_deep(rep, quick, own + ("C10", "C04", "C05"))
+    import checks_dec
+    checks_dec.testsuite_traces(rep, quick, "encoder", own=own + ("C10", "C04", "C05", "C09"))
     corpus_trace(rep, "datasets", quick, own, [relaxed_table()] + ([] if quick else ["default"]), per_file=(14 if quick else 400),
                  variants=(2 if quick else 4),
                  extra=[gs.macrocycle(k) for k in (3, 14, 15, 16, 17, 255, 256, 257, 300)] +
